@@ -309,6 +309,25 @@ pub fn synth_vocab(rng: &mut Rng, samples: &[Vec<u8>]) -> VocabSpec {
         }
         extra.push(w);
     }
+    // "noise" tokens: random recombinations of the bytes the grammar uses (length 2-4). Unlike the
+    // substrings above they mostly do NOT continue grammatically after their first bytes, which is
+    // what exposes a mask that lets a token through on the strength of its prefix.
+    let alphabet: Vec<u8> = samples
+        .iter()
+        .flatten()
+        .copied()
+        .filter(|b| *b != 0xff && *b < 0x80)
+        .collect();
+    if !alphabet.is_empty() {
+        let n_noise = (target_extra / 3).clamp(4, 80);
+        for _ in 0..n_noise {
+            let l = rng.range(2, 4);
+            let w: Vec<u8> = (0..l).map(|_| *rng.pick(&alphabet)).collect();
+            if !extra.contains(&w) {
+                extra.push(w);
+            }
+        }
+    }
     // long generic tokens so that every slice length class is populated
     let alpha = b"abcdefghijklmnopqrstuvwxyz 0123456789";
     for &l in &[11usize, 12, 18, 30, 31, 33, 48] {
